@@ -21,7 +21,16 @@ Allowed rewrites (each is logged per function and reported in the evidence):
   R4 std::io::stdin().read_line(&mut s) -> verif_io::read_line(Tracked(verif_in), &mut s) and an extra ghost
      parameter `Tracked(verif_in): Tracked<&mut InLog>`: the pending input lines are universally quantified
   R5 #[derive], #[inline], doc comments, #[test] items dropped
-  R6 `for _ in <range>` -> `for _ in verif_it: <range>` (names Verus' ghost loop iterator; no executable effect)
+  R6 `for <pat> in <iter>` -> `for <pat> in verif_it: <iter>` (names Verus' ghost loop iterator; no executable effect)
+  R7 calls of the callees named by `//@ghost <callee> :: <ghost args>` get those ghost arguments appended (the callee's
+     contract speaks about the ghost output/input log or the ghost event trace; erased at compile time);
+     `//@after <callee> :: <proof block>` appends a proof block after every statement that calls <callee>;
+     `//@before <text> :: <proof block>` puts a proof block (a hint: assertions only) in front of every occurrence of <text>
+  R8 `<ident> == "<literal>"` on a String -> verif_io::str_eq(&<ident>, "<literal>") (same meaning; vstd has no spec for
+     String: PartialEq<&str>); `std::io::stdout().flush()` -> verif_io::flush()
+  R10 a local variable named `int` (a Verus builtin type name) is renamed `int_no`
+  R9 print arguments: a slice of the source text `&x[a..b]` is logged as an opaque value (its rendering, and the slicing
+     itself, are NOT checked); an identifier named by `//@str <ident>` is a String and is logged as verif_io::str_id(&ident)
 Anything else in a body that Verus rejects means the function is OUT OF REACH (exit 2), never "proved".
 """
 import os
@@ -57,7 +66,7 @@ class Extractor:
         return self.tables[rel]
 
     # ------------------------------------------------------------------ items
-    def item(self, rel: str, kind: str, name: str) -> str:
+    def item(self, rel: str, kind: str, name: str, newname: str = None) -> str:
         t = self.text(rel)
         if kind in ("struct", "enum"):
             m = re.search(rf"^(pub )?{kind} {re.escape(name)}\b[^;{{]*\{{", t, re.M)
@@ -80,10 +89,13 @@ class Extractor:
         if dm and "Copy" in dm.group(1):
             body = "#[derive(Copy, Clone)]\n" + body
         self.rewrites.append(f"{rel}:{kind} {name}: R5 (attributes/doc comments dropped)")
+        if newname:
+            body = re.sub(rf"\b{kind} {re.escape(name)}\b", f"{kind} {newname}", body, count=1)
+            self.rewrites.append(f"{rel}:{kind} {name}: named {newname} (the alias under which the crate re-exports it)")
         return body
 
     # -------------------------------------------------------------- functions
-    def fn(self, rel: str, name: str, contract: str, newname: str = None, loops: Dict[int, str] = None) -> str:
+    def fn(self, rel: str, name: str, contract: str, newname: str = None, loops: Dict[int, str] = None, opts=None) -> str:
         t = self.text(rel)
         m = re.search(rf"^([ \t]*)(pub(?:\([a-z]+\))? )?fn {re.escape(name)}\s*[<(]", t, re.M)
         if not m:
@@ -95,7 +107,7 @@ class Extractor:
         if newname:
             sig = re.sub(rf"fn {re.escape(name)}\b", f"fn {newname}", sig, count=1)
         self.functions.append(f"{rel}::{name}")
-        return self._assemble(sig, contract, body, loops, f"{rel}::{name}")
+        return self._assemble(sig, contract, body, loops, f"{rel}::{name}", opts)
 
     @staticmethod
     def _body_open(t: str, i: int) -> int:
@@ -155,21 +167,18 @@ class Extractor:
         ty = ty.replace("util::Context", "Context").replace("util::Output", "Output")
         return ty
 
-    def _assemble(self, sig: str, contract: str, body: str, loops, what: str) -> str:
-        body = self._rewrite_body(body, what)
+    def _assemble(self, sig: str, contract: str, body: str, loops, what: str, opts=None) -> str:
+        opts = opts or {}
+        body = self._rewrite_body(body, what, opts)
         if loops:
             body = self._splice_loops(body, loops, what)
-        if "verif_io::out" in body:
-            # R2: the ghost output log is threaded through an extra tracked parameter
-            k = sig.rindex(")", 0, sig.index("->") if "->" in sig else len(sig))
-            inner = sig[sig.index("(") + 1:k].strip()
-            sep = "" if not inner or inner.endswith(",") else ", "
-            sig = sig[:k] + sep + "Tracked(verif_log): Tracked<&mut OutLog>" + sig[k:]
-        if "verif_io::read_line(" in body:
-            k = sig.rindex(")", 0, sig.index("->") if "->" in sig else len(sig))
-            inner = sig[sig.index("(") + 1:k].strip()
-            sep = "" if not inner or inner.endswith(",") else ", "
-            sig = sig[:k] + sep + "Tracked(verif_in): Tracked<&mut InLog>" + sig[k:]
+        # R2/R4/R7: the ghost logs / trace are threaded through extra tracked parameters
+        for gname, gty in (("verif_log", "OutLog"), ("verif_in", "InLog"), ("verif_tr", "Trace")):
+            if f"Tracked({gname})" in body:
+                k = sig.rindex(")", 0, sig.index("->") if "->" in sig else len(sig))
+                inner = sig[sig.index("(") + 1:k].strip()
+                sep = "" if not inner or inner.endswith(",") else ", "
+                sig = sig[:k] + sep + f"Tracked({gname}): Tracked<&mut {gty}>" + sig[k:]
         # Verus names the result in the signature: `-> (r: T)`
         m = re.search(r"->\s*([^{]+)$", sig)
         if m and "ensures" in contract:
@@ -177,7 +186,10 @@ class Extractor:
             sig = sig[:m.start()] + f"-> (r: {ty})"
         return f"{sig}\n{contract.rstrip()}\n{body}\n"
 
-    def _rewrite_body(self, body: str, what: str) -> str:
+    def _rewrite_body(self, body: str, what: str, opts=None) -> str:
+        opts = opts or {}
+        strs = set(opts.get("str", []))
+
         def lit_index(lit):
             if lit not in self.literals:
                 self.literals.append(lit)
@@ -198,10 +210,22 @@ class Extractor:
             # a value bound by an `Err(x)` pattern (an error object) has no numeric rendering: logged as opaque
             errs = set(re.findall(r"Err\((\w+)\)\s*=>", body))
             rest = ["verif_io::opaque_u64()" if a in errs else a for a in rest]
+            for i, a in enumerate(rest):
+                if re.fullmatch(r"&\w+\[[^\]]*\.\.[^\]]*\]", a):
+                    rest[i] = "verif_io::opaque_u64()"
+                    self.rewrites.append(f"{what}: R9 source slice `{a}` in a message logged as opaque")
+                elif a in strs:
+                    rest[i] = f"verif_io::str_id(&{a})"
+                    self.rewrites.append(f"{what}: R9 String `{a}` in a message logged as str_id")
             self.rewrites.append(f"{what}: R2 {macro}!({am.group(1)[:40]}..)")
             if len(rest) > 9:
                 raise Undecided(f"{what}: {macro}! with more than 9 arguments")
             return f"verif_io::out{len(rest)}(Tracked(verif_log), {k}" + "".join(f", ({a}) as u64" for a in rest) + ")"
+        # R10: a local variable called `int` collides with Verus' builtin type of that name
+        if re.search(r"\bint\b", re.sub(r'"(?:[^"\\]|\\.)*"|//[^\n]*', "", body)):
+            parts = re.split(r'("(?:[^"\\]|\\.)*"|//[^\n]*)', body)
+            body = "".join(x if i % 2 else re.sub(r"\bint\b", "int_no", x) for i, x in enumerate(parts))
+            self.rewrites.append(f"{what}: R10 local `int` renamed `int_no` (name of a Verus builtin type)")
         body2 = replace_macro(body, ("println", "print"), pr)
         if body2 != body:
             body = body2
@@ -211,14 +235,77 @@ class Extractor:
             return "verif_io::opaque_string()"
         body = replace_macro(body, ("format",), fm)
         # R6: name the ghost iterator of `for _ in <range>` so that a spliced invariant can refer to the trip count
-        b3 = re.sub(r"\bfor\s+_\s+in\s+(?!verif_it:)", "for _ in verif_it: ", body)
+        b3 = re.sub(r"\bfor\s+(_|\w+|\([\w\s,]+\))\s+in\s+(?!verif_it:)", r"for \1 in verif_it: ", body)
         if b3 != body:
             body = b3
             self.rewrites.append(f"{what}: R6 ghost iterator named")
         if "std::io::stdin().read_line(" in body:
             body = body.replace("std::io::stdin().read_line(", "verif_io::read_line(Tracked(verif_in), ")
             self.rewrites.append(f"{what}: R4 stdin read_line -> ghost input log")
+        b4 = re.sub(r'\b(\w+)\s*==\s*("(?:[^"\\]|\\.)*")', r"verif_io::str_eq(&\1, \2)", body)
+        if b4 != body:
+            body = b4
+            self.rewrites.append(f"{what}: R8 String == literal -> verif_io::str_eq")
+        if "std::io::stdout().flush()" in body:
+            body = body.replace("std::io::stdout().flush()", "verif_io::flush()")
+            self.rewrites.append(f"{what}: R8 stdout flush -> verif_io::flush()")
+        for callee, gargs in opts.get("ghost", []):
+            body, n = self._append_ghost_args(body, callee, gargs)
+            if n == 0:
+                raise Undecided(f"{what}: lost anchor: no call of `{callee}` found (rewrite R7)")
+            self.rewrites.append(f"{what}: R7 {n} call(s) of {callee} get ghost arguments")
+        for anchor, block in opts.get("before", []):
+            n = body.count(anchor)
+            if n == 0:
+                raise Undecided(f"{what}: lost anchor: `{anchor}` not found (proof hint)")
+            body = body.replace(anchor, block + " " + anchor)
+            self.rewrites.append(f"{what}: R7 proof hint before {n} occurrence(s) of `{anchor}`")
+        for callee, block in opts.get("after", []):
+            body, n = self._append_after(body, callee, block)
+            if n == 0:
+                raise Undecided(f"{what}: lost anchor: no call of `{callee}` found (rewrite R7 after)")
+            self.rewrites.append(f"{what}: R7 proof block after {n} call(s) of {callee}")
         return body
+
+    @staticmethod
+    def _call_spans(body: str, callee: str):
+        """(open paren index, close paren index) of every call `callee(`"""
+        out = []
+        for m in re.finditer(r"(?<![\w.])" + re.escape(callee) + r"\s*\(", body):
+            i = m.end() - 1
+            d, j = 0, i
+            while True:
+                c = body[j]
+                if c == '"':
+                    j += 1
+                    while body[j] != '"':
+                        if body[j] == "\\":
+                            j += 1
+                        j += 1
+                elif c in "([{":
+                    d += 1
+                elif c in ")]}":
+                    d -= 1
+                    if d == 0:
+                        break
+                j += 1
+            out.append((i, j))
+        return out
+
+    def _append_ghost_args(self, body: str, callee: str, gargs: str):
+        spans = self._call_spans(body, callee)
+        for i, j in reversed(spans):
+            inner = body[i + 1:j].strip()
+            sep = "" if not inner or inner.endswith(",") else ", "
+            body = body[:j] + sep + gargs + body[j:]
+        return body, len(spans)
+
+    def _append_after(self, body: str, callee: str, block: str):
+        spans = self._call_spans(body, callee)
+        for i, j in reversed(spans):
+            k = body.index(";", j)
+            body = body[:k + 1] + " " + block + body[k + 1:]
+        return body, len(spans)
 
     def _splice_loops(self, body: str, loops: Dict[int, str], what: str) -> str:
         heads = [m for m in re.finditer(r"\b(for\s+[^{;]+?\s+in\s+[^{]+?|while\s+[^{]+?|loop\s*)\{", body)]
@@ -300,13 +387,15 @@ def expand(template: str, ex: Extractor) -> str:
             continue
         kind, rest = m.group(1), m.group(2).strip()
         if kind == "item":
-            rel, k, name = rest.split()
-            out.append(ex.item(rel, k, name))
+            parts = rest.split()
+            rel, k, name = parts[:3]
+            out.append(ex.item(rel, k, name, parts[4] if len(parts) >= 5 and parts[3] == "as" else None))
             i += 1
             continue
         if kind in ("fn", "action"):
             # collect contract block
             contract, loops = [], {}
+            opts = {"ghost": [], "after": [], "before": [], "str": []}
             j = i + 1
             if j < len(lines) and lines[j].strip().startswith("//@contract"):
                 j += 1
@@ -314,7 +403,14 @@ def expand(template: str, ex: Extractor) -> str:
                 while not (lines[j].strip() == "//@end" and cur_loop is None):
                     s = lines[j].strip()
                     lm = re.match(r"//@loop (\d+)", s)
-                    if lm:
+                    om = re.match(r"//@(ghost|after|before|str)\s+(.*)$", s)
+                    if om and cur_loop is None:
+                        if om.group(1) == "str":
+                            opts["str"] += om.group(2).split()
+                        else:
+                            callee, _, txt = om.group(2).partition("::")
+                            opts[om.group(1)].append((callee.strip(), txt.strip()))
+                    elif lm:
                         cur_loop = int(lm.group(1))
                         loops[cur_loop] = ""
                     elif s == "//@end" and cur_loop is not None:
@@ -330,7 +426,7 @@ def expand(template: str, ex: Extractor) -> str:
                 parts = rest.split()
                 rel, name = parts[0], parts[1]
                 newname = parts[3] if len(parts) >= 4 and parts[2] == "as" else None
-                out.append(ex.fn(rel, name, ctext, newname, loops))
+                out.append(ex.fn(rel, name, ctext, newname, loops, opts))
             else:
                 rel, _, tail = rest.partition(" ")
                 sig, _, name = tail.rpartition(" as ")
